@@ -35,16 +35,20 @@ vars == <<f, ix, phase>>
 Init == f \in Fams /\ ix = <<>> /\ phase = 0
 Next == phase = 0 /\ phase' = 1 /\ ix' \in Multi(Len(Alpha(f))) /\ UNCHANGED f
 \* sampling variant for -simulate
-SInit == f = RandomElement(Fams) /\ ix = <<>> /\ phase = 0
-SNext == phase = 0 /\ phase' = 1 /\ ix' = RandomElement(Multi(Len(Alpha(f)))) /\ UNCHANGED f
+\* (TLC evaluates the initial predicate once per run, so the family is drawn in the step as well)
+SInit == f = [fam |-> "int", coll |-> "none"] /\ ix = <<>> /\ phase = 0
+SNext == phase = 0 /\ phase' = 1 /\ f' = RandomElement(Fams) /\ ix' = RandomElement(Multi(Len(Alpha(f'))))
 
-V(s) == [i \in DOMAIN s |-> Alpha(f)[s[i]]]
-W(s) == [i \in DOMAIN s |-> Alpha(f)[(s[i] % Len(Alpha(f))) + 1]]      \* the shifted copy
+VF(F, s) == [i \in DOMAIN s |-> Alpha(F)[s[i]]]
+WF(F, s) == [i \in DOMAIN s |-> Alpha(F)[(s[i] % Len(Alpha(F))) + 1]]      \* the shifted copy
+V(s) == VF(f, s)
+W(s) == WF(f, s)
 All(s) == V(s) \o W(s)
 
 Eq(a, b) == ~IsN(a) /\ ~IsN(b) /\ CmpNN(a, b, f.coll) = 0
 EqBin(a, b) == ~IsN(a) /\ ~IsN(b) /\ CmpNN(a, b, "bin") = 0
-ClassesOf(vals) == LET nn == {i \in DOMAIN vals : ~IsN(vals[i])} IN {{j \in nn : Eq(vals[i], vals[j])} : i \in nn}
+ClassesF(F, vals) == LET nn == {i \in DOMAIN vals : ~IsN(vals[i])} IN {{j \in nn : CmpNN(vals[i], vals[j], F.coll) = 0} : i \in nn}
+ClassesOf(vals) == ClassesF(f, vals)
 HasNull(vals) == \E i \in DOMAIN vals : IsN(vals[i])
 NRows(vals) == Cardinality(ClassesOf(vals)) + (IF HasNull(vals) THEN 1 ELSE 0)
 
@@ -81,6 +85,7 @@ OperatorLaw(s) ==
 Laws == phase = 1 => EquivalenceLaw(ix) /\ OperatorLaw(ix)
 
 \* ---- the case for the engine
-Emit == PrintT("CASE " \o ToJson([fam |-> f.fam, coll |-> f.coll, v |-> V(ix'), w |-> W(ix'),
-                                   expcls |-> ClassesOf(All(ix'))]))
+Emit == LET F == f' IN
+        PrintT("CASE " \o ToJson([fam |-> F.fam, coll |-> F.coll, v |-> VF(F, ix'), w |-> WF(F, ix'),
+                                   expcls |-> ClassesF(F, VF(F, ix') \o WF(F, ix'))]))
 =============================================================================
